@@ -108,13 +108,14 @@ def _light(s):
     """a solver holding only the LIGHT assertions of s (no sums, no products / quotients of unknowns, no sqrt): most side
     conditions of the normaliser (index ranges, index equalities, positivity of a scalar) follow from those alone, and a
     query against them never drifts into non-linear arithmetic.  Proving from a subset of the assumptions is sound."""
-    n = len(s.assertions())
+    asserts = list(s.assertions())
+    n = hash(tuple(a.get_id() for a in asserts))  # the exact assertion set (push/pop can bring back the same COUNT with other hypotheses)
     cache = getattr(s, "_verif_light", None)
     if cache is not None and cache[0] == n:
         return cache[1]
     ls = z3.Solver()
     ls.set("timeout", 1000)
-    for a in s.assertions():
+    for a in asserts:
         try:
             txt = a.sexpr()
         except z3.Z3Exception:
@@ -402,6 +403,10 @@ def cancels(s, facts, m1, m2) -> bool:
         f1, f2 = _sqrt_pairs(s, facts, f1), _sqrt_pairs(s, facts, f2)
     if any(_is_recip(f) for f in f1 + f2):
         f1, f2 = _div_pairs(s, facts, f1), _div_pairs(s, facts, f2)
+    if any(z3.is_app_of(f, z3.Z3_OP_ITE) for f in f1 + f2):  # indicator factors that are 1 under the hypotheses (e.g. a mask known to be set)
+        one = lambda f: z3.RealVal(1) if f.sort() == z3.RealSort() else z3.IntVal(1)  # noqa
+        f1 = [f for f in f1 if not (z3.is_app_of(f, z3.Z3_OP_ITE) and _unsat(s, *facts, f != one(f)))]
+        f2 = [f for f in f2 if not (z3.is_app_of(f, z3.Z3_OP_ITE) and _unsat(s, *facts, f != one(f)))]
     if len(f1) == len(f2) and z3.is_true(z3.simplify(c1 + c2 == 0)):
         s.push()
         s.add(*facts)
